@@ -277,6 +277,9 @@ impl World for WorldI {
             if p.faults && rng.chance(1, if focus == "C18" { 12 } else { 60 }) {
                 ops.push(IOp::ProbeSetFlaky { tok: 2 + rng.below(2) as u8, after: rng.range(1, 6) as u8 });
             }
+            if p.faults && rng.chance(1, if focus == "C18" { 12 } else { 60 }) {
+                ops.push(IOp::ProbeSetWeird { tok: 2 + rng.below(2) as u8, mode: rng.below(5) as u8 });
+            }
             if rng.chance(1, 12) {
                 ops.push(IOp::Advance { dseq: *rng.pick(&[1u32, 17, 100, 20_000, 1_100_000]) });
             }
@@ -314,7 +317,7 @@ impl World for WorldI {
                 let its = ex.its();
                 crate::surface::probe_unlisted(ctx, &mut ex.sim, &its, "interchain-token-service", &addrs, &["C05", "C07", "C18", "C06", "C04"], &["C05", "C07", "C11", "C06", "C04"]);
             }
-            if !matches!(op, IOp::Resubmit { .. } | IOp::Advance { .. } | IOp::ProbeSetMeta { .. } | IOp::ProbeSetFlaky { .. }) {
+            if !matches!(op, IOp::Resubmit { .. } | IOp::Advance { .. } | IOp::ProbeSetMeta { .. } | IOp::ProbeSetFlaky { .. } | IOp::ProbeSetWeird { .. }) {
                 ex.history.push(op.clone());
             }
             if !ctx.stopped() {
@@ -431,6 +434,7 @@ pub fn run_op(ex: &mut IExec, ctx: &mut Ctx, op: &IOp) {
         IOp::Advance { dseq } => crate::common::advance_ledgers(&ex.sim, ctx, *dseq),
         IOp::ProbeSetMeta { tok, meta } => ex.do_probe_set_meta(ctx, *tok, meta),
         IOp::ProbeSetFlaky { tok, after } => ex.do_probe_set_flaky(ctx, *tok, *after),
+        IOp::ProbeSetWeird { tok, mode } => ex.do_probe_set_weird(ctx, *tok, *mode),
         IOp::Resubmit { .. } => {}
     }
 }
